@@ -111,7 +111,7 @@ def main(chk, a, tier, seed):
         def race_thread():
             try:
                 rbin = race_build(chk, sc, tool)
-                race["res"] = el.race_run(chk, rbin, work, prop, "quick" if tier == "quick" else "racethorough", seed, rev, replay_dir, 25 if tier == "quick" else 900,
+                race["res"] = el.race_run(chk, rbin, work, prop, "quick" if tier == "quick" else "racethorough", seed, rev, replay_dir, 35 if tier == "quick" else 900,
                                           extra_env={"VERIF_TOOL_BIN": os.path.join(sc.dir, tool + ".race.bin")})
             except SystemExit as e:
                 race["exit"] = e.code
